@@ -101,6 +101,8 @@ class UndirectedWeightedGraph : private LabeledUndirectedGraph<EdgeWeight> {
         VertexIndex vertex1, VertexIndex vertex2, EdgeWeight weight,
         bool force = false
     ) {
+        assertVertexInRange(vertex1);
+        assertVertexInRange(vertex2);
         if (force || !hasEdge(vertex1, vertex2)) {
             if (vertex1 != vertex2)
                 adjacencyList[vertex1].push_back(vertex2);
